@@ -56,12 +56,11 @@ def ClosedFormEqCashflowSum : Prop :=
     convOf code = some conv → (1 / (1 + y / f) : ℝ) ≠ 1 → (pay = 0 ∨ pay = 1) →
     dirtyCore code n c f y a pay aY = .ok (dirtyPerUnit conv n c f y a aY pay)
 
-/-- The inputs on which the unchanged code leaves the cash-flow definition: last coupon period (`n = 0`) and
-either US_TREASURY (compounds over the fractional period, while its own `n ≥ 1` branch and the
-convention use simple interest) or a non-UK convention inside the ex-dividend window (the coupon the
-buyer will not receive is still priced in). -/
-def LastPeriodException (code n : Nat) (pay : ℝ) : Prop :=
-  n = 0 ∧ (code = 3 ∨ (code ≠ 1 ∧ pay ≠ 1))
+/-- The inputs on which the code still leaves the cash-flow definition: last coupon period (`n = 0`) under
+US_TREASURY — it compounds over the fractional period (`v**alpha`), while its own `n ≥ 1` branch and the
+convention use simple interest `1/(1 + alpha·y/f)`.  (Before fix 81d60de the exception also contained the
+non-UK conventions inside the ex-dividend window.) -/
+def LastPeriodException (code n : Nat) : Prop := n = 0 ∧ code = 3
 
 /-- C07 closed_form_eq_cashflow_sum: outside `LastPeriodException` every branch of
 `dirty_price_from_ytm` (all four conventions, `n = 0` and `n ≥ 1` branches, with and without the
@@ -69,12 +68,12 @@ ex-dividend coupon) is the explicit cash-flow sum of the specification, for all 
 theorem closed_form_eq_cashflow_sum_partial
     (code : Nat) (conv : Conv) (n : ℕ) (c f y a aY pay : ℝ)
     (hc : convOf code = some conv) (hv : (1 / (1 + y / f) : ℝ) ≠ 1)
-    (hx : ¬ LastPeriodException code n pay) :
+    (hx : ¬ LastPeriodException code n) :
     dirtyCore code n c f y a pay aY = .ok (dirtyPerUnit conv n c f y a aY pay) := by
   rcases Nat.eq_zero_or_pos n with h0 | hpos
   · -- last coupon period
     subst h0
-    have hx' : ¬ (code = 3 ∨ (code ≠ 1 ∧ pay ≠ 1)) := fun h => hx ⟨rfl, h⟩
+    have hx' : ¬ (code = 3) := fun h => hx ⟨rfl, h⟩
     match code, hc with
     | 1, hc =>
       simp only [convOf, Option.some.injEq] at hc; subst hc
@@ -83,17 +82,11 @@ theorem closed_form_eq_cashflow_sum_partial
       congr 1; ring
     | 2, hc =>
       simp only [convOf, Option.some.injEq] at hc; subst hc
-      have hp : pay = 1 := by
-        by_contra h; exact hx' (Or.inr ⟨by decide, h⟩)
-      subst hp
       simp only [dirtyCore, dirtyPerUnit, discount, spec_sum_zero, if_true]
       congr 1; ring
-    | 3, _ => exact absurd (Or.inl rfl) hx'
+    | 3, _ => exact absurd rfl hx'
     | 4, hc =>
       simp only [convOf, Option.some.injEq] at hc; subst hc
-      have hp : pay = 1 := by
-        by_contra h; exact hx' (Or.inr ⟨by decide, h⟩)
-      subst hp
       simp only [dirtyCore, dirtyPerUnit, discount, spec_sum_zero, if_true]
       congr 1; ring
   · -- n ≥ 1 : geometric series
@@ -151,7 +144,7 @@ theorem compound_discount_eq_rpow (v a : ℝ) (k : ℕ) (hv : 0 < v) :
 /-! ### Counterexamples: the full statement fails on the unchanged code -/
 
 /-- C07 (known finding `C07/us-treasury-last-period-compounding`): US_TREASURY, last period, 5 % coupon,
-shifted yield 5 %, half a period to run: the code returns `v^½ (1 + c/f)`, the convention
+shifted yield 5 %, half a period to run, coupon paid: the code returns `v^½ (1 + c/f)`, the convention
 `(1 + c/f)/(1 + ½·y/f)`. -/
 theorem us_treasury_last_period_not_simple :
     dirtyCore 3 0 (0.05 : ℝ) 2 0.05 (1 / 2) 1 0 ≠ .ok (dirtyPerUnit .usTreasury 0 0.05 2 0.05 (1 / 2) 0 1) := by
@@ -165,34 +158,42 @@ theorem us_treasury_last_period_not_simple :
     rw [← Real.rpow_natCast, ← Real.rpow_mul hv0]; norm_num
   have hw : v ^ (1 / 2 : ℝ) = 1 / (1 + 1 / 2 * 0.05 / 2) := by
     have hne : (1 + 0.05 / 2 : ℝ) ≠ 0 := by norm_num
-    have : v ^ (1 / 2 : ℝ) * (1 + 0.05 / 2) = (0.05 / 2 * 1 * (1 / (1 + 1 / 2 * 0.05 / 2)) + 1 / (1 + 1 / 2 * 0.05 / 2)) := h'
+    have : v ^ (1 / 2 : ℝ) * (1 + 1 * 0.05 / 2) = (0.05 / 2 * 1 * (1 / (1 + 1 / 2 * 0.05 / 2)) + 1 / (1 + 1 / 2 * 0.05 / 2)) := h'
     field_simp at this ⊢
     linarith
   rw [hw] at hsq
   rw [hvdef] at hsq
   norm_num at hsq
 
-/-- C07 (known finding `C07/last-period-exdiv-coupon-priced`): US_STREET, last period, ex-dividend
-(`pay = 0`): the code prices `(1 + c/f)·vw`, the buyer only receives the principal, `vw`. -/
-theorem last_period_exdiv_coupon_priced :
-    dirtyCore 2 0 (0.05 : ℝ) 2 0.05 (1 / 50) 0 0 ≠ .ok (dirtyPerUnit .usStreet 0 0.05 2 0.05 (1 / 50) 0 0) := by
-  simp only [dirtyCore, dirtyPerUnit, discount, spec_sum_zero, if_true]
-  intro h
-  have h' := Except.ok.inj h
-  norm_num at h'
-
-/-- C07: hence the full statement does not hold of the unchanged code. -/
+/-- C07: hence the full statement does not hold of the code (only the US_TREASURY last period remains). -/
 theorem closed_form_full_statement_fails : ¬ ClosedFormEqCashflowSum := by
   intro H
-  exact last_period_exdiv_coupon_priced
-    (H 2 .usStreet 0 0.05 2 0.05 (1 / 50) 0 0 rfl (by norm_num) (Or.inl rfl))
+  exact us_treasury_last_period_not_simple
+    (H 3 .usTreasury 0 0.05 2 0.05 (1 / 2) 0 1 rfl (by norm_num) (Or.inr rfl))
+
+/-- C07: what the code computes in the US_TREASURY last period is the UK-DMO (compound) cash-flow sum,
+ex-dividend coupon included or not as `pay` says. -/
+theorem us_treasury_last_period_eq_compound (c f y a aY pay : ℝ) :
+    dirtyCore 3 0 c f y a pay aY = .ok (dirtyPerUnit .ukDmo 0 c f y a aY pay) := by
+  simp only [dirtyCore, dirtyPerUnit, discount, spec_sum_zero, if_true, powF_real, ipow_real,
+    fpow_real, pow_zero]
+  congr 1; ring
+
+/-- C07 (fixed 81d60de): inside the ex-dividend window the last-period price of every convention contains
+the principal only — the coupon the buyer will not receive is no longer priced in. -/
+theorem last_period_exdiv_principal_only (c f y a aY : ℝ) :
+    dirtyCore 2 0 c f y a 0 aY = .ok (1 / (1 + a * y / f)) ∧
+    dirtyCore 4 0 c f y a 0 aY = .ok (1 / (1 + aY * y)) ∧
+    dirtyCore 3 0 c f y a 0 aY = .ok ((1 / (1 + y / f)) ^ a) ∧
+    dirtyCore 1 0 c f y a 0 aY = .ok ((1 / (1 + y / f)) ^ a) := by
+  simp [dirtyCore]
 
 /-- C07: the wrapper `dirty_price_from_ytm` = 100 × cash-flow sum at the shifted yield
 `ytm + 1.2345e-11`; errors exactly for an unknown convention or no coupon left. -/
 theorem dirty_price_from_ytm_eq_cashflow_sum
     (code : Nat) (conv : Conv) (n : ℕ) (c f ytm a aY pay : ℝ)
     (hc : convOf code = some conv) (hv : (1 / (1 + (ytm + 1.2345e-11) / f) : ℝ) ≠ 1)
-    (hx : ¬ LastPeriodException code n pay) :
+    (hx : ¬ LastPeriodException code n) :
     dirtyPriceFromYtm code (n : Int) c f ytm a pay aY
       = .ok (dirtyPrice conv n c f (ytm + 1.2345e-11) a aY pay) := by
   have hcode : ¬ (code = 0 ∨ code > 4) := by
